@@ -19,6 +19,7 @@ class RootPredicate[T](Predicate[T]):
         self.frame = inspect.currentframe()
         if self.root_predicate:
             return self.root_predicate(x)
+        del self.root_predicate  # a failed lookup is not remembered: a later caller may be able to resolve it
         raise ValueError(f"Could not find 'root' predicate {self}")
 
     def __repr__(self) -> str:
